@@ -44,6 +44,8 @@ class Ctx:
         e = Executor(self.mir, self.enums, K=K)
         e.impl_index = self.idx
         stdmodels.install_core(e)
+        from mirsmt import itermodels
+        itermodels.install(e)
         return e
 
     def fn(self, ex, key):
@@ -433,3 +435,107 @@ def validate(ctx, R, seed, count, engine="sync"):
     if dis:
         raise Inconclusive("translator validation (delta pipeline): %d/%d concrete cases disagree with the native build: %s"
                            % (dis, len(njson), json.dumps(R.validation["samples"][-1])[:400]))
+
+
+# ------------------------------------------------------------------ large inputs: the parallel (> 64 KiB) signature path
+
+def big_signature_obligation(ctx, R, prover, n, bs):
+    """Signature::generate on an input of n > 65536 symbolic bytes (one array term, concrete chunk boundaries):
+    block i = (i, weak(view_i), strong(view_i)) with view_i = data[i*bs .. min((i+1)*bs, n)] — the same as the
+    sequential definition, for every content."""
+    nb = (n + bs - 1) // bs
+    ex = ctx.ex(K=4)
+    deltamodels.install(ex, window_cap=4, byte_cap=8, cand_cap=1)
+    ex.big_views = True
+    data = z3.Array("DATA", z3.IntSort(), z3.IntSort())
+    st = State()
+    st.frames[0] = {"rb": VStruct("SliceReader", [VSeq(data, I(0), I(n), "u8")])}
+    sres = ex.exec_fn(ctx.fn(ex, "Signature::generate"), [VRef("place", 0, "rb"), VInt(I(bs), "usize")], st)
+    if sres is None or 0 not in sres.pay:
+        raise Inconclusive("Signature::generate does not return Ok on a %d-byte input" % n)
+    ex.exit_guards.append(st.guard)
+    sig = sres.pay[0][0]
+    names = ctx.struct_fields(ex, "Signature::generate", "Signature")
+    f = {k: sig.f[i] for i, k in enumerate(names)}
+    blocks = f["blocks"]
+    bnames = ctx.struct_fields(ex, "BlockSignature::compute", "BlockSignature")
+    conj = [sres.discr == 0, f["block_size"].t == bs, f["file_size"].t == n, blocks.len == nb]
+    if len(blocks.items) < nb:
+        conj.append(z3.BoolVal(False))
+    for i in range(min(nb, len(blocks.items))):
+        b = {k: blocks.items[i].f[j] for j, k in enumerate(bnames)}
+        view = VSeq(data, I(i * bs), I(min(bs, n - i * bs)), "u8")
+        conj.append(b["index"].t == i)
+        conj.append(b["weak_hash"].t == deltamodels.weak_D(ex, view))
+        sv = b["strong_hash"].f[0]
+        conj.append(z3.And(sv.len == view.len, simp(sv.off) == simp(view.off), sv.arr.eq(view.arr) if hasattr(sv.arr, "eq") else z3.BoolVal(False)))
+    tag = "C01/parallel-signature[n=%d,bs=%d]" % (n, bs)
+
+    def witness(name, model, neg):
+        case = {"fn": "signature_check", "n": n, "bs": bs, "seed": 12345}
+        res = native.run_both(case)
+        bad = {p: r for p, r in res.items() if not r.get("equal")}
+        if bad:
+            case["observed"] = res
+            return {"confirmed": True, "replay_path": R.save_replay(tag, case), "key": "C01/parallel-signature",
+                    "detail": "Signature::generate(%d bytes, bs=%d) differs from the sequential definition: %s" % (n, bs, json.dumps(bad)[:300])}
+        return {"confirmed": False, "detail": "native Signature::generate agrees with the sequential definition on pseudo-random data of this size"}
+
+    prover.prove(ex, {"blocks-equal-sequential-definition": z3.And(*conj)}, tag,
+                 "input of exactly %d symbolic bytes (parallel branch: > 64 KiB), block size %d, %d blocks; rayon adaptors modelled as their sequential "
+                 "counterparts (order-preserving); digests of views as uninterpreted functions" % (n, bs, nb),
+                 ["Signature::generate (parallel branch)", "BlockSignature::compute"], witness)
+
+
+# ------------------------------------------------------------------ AsyncCopiaSync::signature == Signature::generate (engine independence)
+
+def async_signature_obligation(ctx, R, prover, n, bs):
+    from mirsmt import patchmodels
+    nb = (n + bs - 1) // bs if bs else 0
+    ex = ctx.ex(K=2 * n + nb + 6)
+    deltamodels.install(ex, window_cap=max(bs, 1), byte_cap=max(n, bs, 1), cand_cap=1)
+    patchmodels.install(ex)
+    B = sym_bytes(ex, "B", n)
+    st = State()
+    st.frames[0] = {"rb": VStruct("SliceReader", [VSeq(B, I(0), I(n), "u8")])}
+    sres = ex.exec_fn(ctx.fn(ex, "Signature::generate"), [VRef("place", 0, "rb"), VInt(I(bs), "usize")], st)
+    if sres is None or 0 not in sres.pay:
+        raise Inconclusive("Signature::generate returns no Ok")
+    ref_sig = sres.pay[0][0]
+    key = ctx.idx.get("AsyncCopiaSync::signature")
+    cfn = ex.find_fn(key + "::{closure#0}") if key else None
+    if cfn is None:
+        raise Inconclusive("no MIR body for the async signature state machine")
+    cfg = VStruct("SyncConfig", [VInt(I(bs), "usize"), VInt(I(8), "usize"), VInt(I(65536), "usize"), VBool(z3.BoolVal(True))])
+    st.frames[0]["eng"] = VStruct("Engine", [cfg])
+    reader = VStruct("SliceReader", [VSeq(B, I(0), I(n), "u8")])
+    st.frames[0]["co"] = VEnum("Coroutine", I(0), {-1: [VRef("place", 0, "eng"), reader]})
+    poll = ex.exec_fn(cfn, [VStruct("Pin", [VRef("place", 0, "co")]), VOpaque("Context")], st)
+    if poll is None or 0 not in poll.pay:
+        raise Inconclusive("async signature never becomes Ready")
+    ex.exit_guards.append(st.guard)
+    ares = poll.pay[0][0]
+    if 0 not in ares.pay:
+        raise Inconclusive("async signature returns only errors")
+    asig = ares.pay[0][0]
+    names = ctx.struct_fields(ex, "Signature::generate", "Signature")
+    fa = {k: asig.f[i] for i, k in enumerate(names)}
+    fr = {k: ref_sig.f[i] for i, k in enumerate(names)}
+    bnames = ctx.struct_fields(ex, "BlockSignature::compute", "BlockSignature")
+    conj = [poll.discr == 0, ares.discr == 0, fa["block_size"].t == fr["block_size"].t, fa["file_size"].t == fr["file_size"].t,
+            fa["blocks"].len == fr["blocks"].len]
+    for i, rb in enumerate(fr["blocks"].items):
+        if i >= len(fa["blocks"].items):
+            conj.append(z3.BoolVal(False))
+            break
+        ab = fa["blocks"].items[i]
+        a = {k: ab.f[j] for j, k in enumerate(bnames)}
+        r = {k: rb.f[j] for j, k in enumerate(bnames)}
+        conj.append(z3.And(a["index"].t == r["index"].t, a["weak_hash"].t == r["weak_hash"].t,
+                           deltamodels.hash_eq_term(ex, a["strong_hash"], r["strong_hash"])))
+    tag = "C01/async-signature[n=%d,bs=%d]" % (n, bs)
+    prover.prove(ex, {"equals-Signature::generate": z3.And(*conj)}, tag,
+                 "input of %d symbolic bytes, block size %d, delivered by the reader in arbitrary pieces (every read may be short); "
+                 "loops unrolled %d times with unwinding assertion" % (n, bs, ex.K),
+                 ["AsyncCopiaSync::signature (coroutine)", "Signature::generate", "BlockSignature::compute"], None,
+                 covers={"completes": z3.And(poll.discr == 0, ares.discr == 0)})
